@@ -620,4 +620,307 @@ theorem handleData_keeps {a0 : A} {s : S} (h : Good a0 s) (arg : Bytes) : Keeps 
     have hk := dataSync_keeps hg1 id (by simpa using hid) (by simpa using hfr.1) (by simpa using hfr.2) (by simpa using hb)
     exact ⟨hk.1, by rw [hk.2]; simp⟩
 
+/-! ### BDAT -/
+
+/-- operations that touch the wire only -/
+theorem setW_good {a0 : A} {s : S} (h : Good a0 s) (w : Wire.W) : Good a0 (setW s w) :=
+  h.of_c rfl rfl rfl (by simpa using h.shape)
+
+theorem setLimit_good {a0 : A} {s : S} (h : Good a0 s) (n : Nat) : Good a0 (setLimit s n) := setW_good h _
+@[simp] theorem setLimit_cfg (s : S) (n : Nat) : (setLimit s n).cfg = s.cfg := rfl
+@[simp] theorem setLimit_c (s : S) (n : Nat) : (setLimit s n).c = s.c := rfl
+
+theorem discardChunkN_keeps {a0 : A} {s : S} (h : Good a0 s) (sz : Option Nat) : Keeps a0 s (discardChunkN s sz) := by
+  unfold discardChunkN
+  split
+  · exact ⟨setW_good h _, rfl⟩
+  · exact Keeps.refl h
+
+@[simp] theorem discardChunkN_cfg (s : S) (sz : Option Nat) : (discardChunkN s sz).cfg = s.cfg := by
+  unfold discardChunkN; split <;> rfl
+
+theorem setBdatStatus_keeps {a0 : A} {s : S} (h : Good a0 s) :
+    Keeps a0 s (setBdatStatus s) ∧ (setBdatStatus s).c.bdat = s.c.bdat ∧ (setBdatStatus s).c.session = s.c.session ∧
+    (setBdatStatus s).c.fromReceived = s.c.fromReceived ∧ (setBdatStatus s).c.recipients = s.c.recipients ∧
+    (setBdatStatus s).c.closed = s.c.closed := by
+  unfold setBdatStatus
+  split
+  · exact ⟨⟨h.of_c rfl rfl rfl (shape_of h.shape rfl rfl rfl rfl rfl rfl), rfl⟩, rfl, rfl, rfl, rfl, rfl⟩
+  · exact ⟨Keeps.refl h, rfl, rfl, rfl, rfl, rfl⟩
+
+theorem writeLmtpStatuses_good {a0 : A} (sts : List (Bytes × BRes)) : ∀ {s : S}, Good a0 s →
+    Good a0 (writeLmtpStatuses s sts) := by
+  induction sts with
+  | nil => intro s h; exact h
+  | cons x xs ih =>
+    intro s h
+    obtain ⟨a, r⟩ := x
+    simp only [writeLmtpStatuses, List.foldl_cons] at ih ⊢
+    exact ih (replyB_good h _ _ _)
+
+theorem OnlyPanics.keeps {a0 : A} {s s' : S} (h : Good a0 s) (hp : OnlyPanics s s') : Keeps a0 s s' :=
+  ⟨hp.good h, hp.cfg⟩
+
+theorem copyChunk_only (fuel : Nat) : ∀ (s : S) (k n cap : Nat), OnlyPanics s (copyChunk fuel s k n cap).1 := by
+  induction fuel with
+  | zero => intro s k n cap; exact OnlyPanics.refl s
+  | succ fuel ih =>
+    intro s k n cap
+    unfold copyChunk
+    split
+    · exact OnlyPanics.refl s
+    · rcases hb : bufRead s.w (min cap n) with ⟨w1, r⟩
+      have hset : OnlyPanics s { s with w := w1 } := ⟨rfl, rfl, 0, rfl⟩
+      cases r with
+      | error e =>
+        cases e <;> exact hset
+      | ok bs =>
+        simp only []
+        have hw := delivWrite_only { s with w := w1 } k bs
+        rcases hd : delivWrite { s with w := w1 } k bs with ⟨s1, okAll⟩
+        rw [hd] at hw
+        simp only []
+        split
+        · exact (hset.trans hw).trans (ih s1 k _ cap)
+        · exact hset.trans hw
+
+theorem startDelivery_keeps {a0 : A} {s : S} (h : Good a0 s) (hcl : s.c.closed = false)
+    (hfrom : s.c.fromReceived = true) (hr : s.c.recipients.isEmpty = false) (hb : s.c.bdat = none) (dec : DataDec) :
+    Keeps a0 s (startDelivery s dec).1 ∧ (startDelivery s dec).1.c.closed = false := by
+  have hsome := h.shape.fromSess hcl hfrom
+  obtain ⟨id, hid⟩ : ∃ id, s.c.session = some id := by
+    cases hs : s.c.session with
+    | none => simp [hs] at hsome
+    | some id => exact ⟨id, rfl⟩
+  unfold startDelivery setBdat
+  refine ⟨⟨⟨?_, ?_⟩, by simp [beginData]⟩, by simp [beginData, hcl]⟩
+  · show Order.run s.cfg a0 ((Ev.dataBegin _ _ :: s.evs).reverse) = _
+    rw [List.reverse_cons, Order.run_append, h.tr]
+    have hne : s.c.recipients.length ≠ 0 := by
+      intro h0; have := List.length_eq_zero_iff.mp h0; simp [this] at hr
+    simp [Order.run, Order.step, abs, beginData, hid, hfrom, hb, hne]
+  · simp only [emit_c, beginData]
+    exact ⟨h.shape.closedSess, h.shape.fromSess, fun _ => ⟨hfrom, hcl⟩, h.shape.idle⟩
+
+/-- the start of a chunked transfer (or its continuation) -/
+theorem bdatBegin_keeps {a0 : A} {s : S} (h : Good a0 s) (hcl : s.c.closed = false)
+    (hfrom : s.c.fromReceived = true) (hr : s.c.recipients.isEmpty = false) :
+    Keeps a0 s (bdatBegin s).1 ∧ (bdatBegin s).1.c.closed = false := by
+  unfold bdatBegin
+  split
+  · exact ⟨Keeps.refl h, hcl⟩
+  · rename_i hb
+    have hsame := popData_same s
+    rcases hpq : popData s with ⟨dec, s1⟩
+    rw [hpq] at hsame
+    have hg1 : Good a0 s1 := hsame.good h
+    have hc1 : s1.c = s.c := hsame.c
+    have hcfg1 : s1.cfg = s.cfg := hsame.cfg
+    simp only []
+    have hk := startDelivery_keeps hg1 (by rw [hc1]; exact hcl) (by rw [hc1]; exact hfrom) (by rw [hc1]; exact hr)
+      (by rw [hc1]; exact hb) dec
+    rcases hsd : startDelivery s1 dec with ⟨s2, k⟩
+    rw [hsd] at hk
+    simp only [] at hk ⊢
+    split
+    · have hp := delivFinish_only s2 k .none
+      exact ⟨⟨hp.good hk.1.1, by rw [hp.cfg, hk.1.2, hcfg1]⟩, by rw [hp.c]; exact hk.2⟩
+    · exact ⟨⟨hk.1.1, by rw [hk.1.2, hcfg1]⟩, hk.2⟩
+
+theorem bdatFail_keeps {a0 : A} {s : S} (h : Good a0 s) (left : Nat) (err : BRes) : Keeps a0 s (bdatFail s left err).1 := by
+  unfold bdatFail
+  simp only []
+  split
+  · exact ⟨setLimit_good (resetConn_good (closeConn_good (replyB_good (setW_good h _) _ _ _)).1).1 _, by simp⟩
+  · exact ⟨setLimit_good (resetConn_good (replyB_good (setW_good h _) _ _ _)).1 _, by simp⟩
+
+theorem bdatFinal_keeps {a0 : A} {s : S} (h : Good a0 s) (k : Nat) : Keeps a0 s (bdatFinal s k).1 := by
+  unfold bdatFinal
+  simp only []
+  -- closing the pipe: at most a panic is logged
+  have hk1 : Keeps a0 s (if delivRunning s k = true then delivFinish s k .eof else s) := by
+    split
+    · exact (delivFinish_only s k .eof).keeps h
+    · exact Keeps.refl h
+  generalize (if delivRunning s k = true then delivFinish s k .eof else s) = s1 at hk1 ⊢
+  -- the verdict(s)
+  have hk2 : ∀ (res : BRes) (isPanic : Bool), Keeps a0 s1
+      (if s1.cfg.lmtp = true then
+        if (!s1.cfg.lmtpSess) = true then writeLmtpStatuses s1 (s1.c.recipients.map (fun a => (a, res)))
+        else
+          if ((applyStatuses ((s1.c.bdatStatus).getD s1.c.recipients) (delivDec s1 k).statuses []).2 && !isPanic) = true then
+            writeLmtpStatuses s1 (collect s1.c.recipients (applyStatuses ((s1.c.bdatStatus).getD s1.c.recipients) (delivDec s1 k).statuses []).1 res)
+          else writeLmtpStatuses s1 (collect s1.c.recipients (applyStatuses ((s1.c.bdatStatus).getD s1.c.recipients) (delivDec s1 k).statuses []).1 errPanic)
+      else replyB s1 (dataStatus res).1 (dataStatus res).2.1 [(dataStatus res).2.2]) := by
+    intro res isPanic
+    split
+    · split
+      · exact ⟨writeLmtpStatuses_good _ hk1.1, by simp⟩
+      · split
+        · exact ⟨writeLmtpStatuses_good _ hk1.1, by simp⟩
+        · exact ⟨writeLmtpStatuses_good _ hk1.1, by simp⟩
+    · exact keeps_replyB hk1.1 _ _ _
+  have hk2' := hk2 (if (delivRet s1 k == BRes.panic) = true then errPanic else delivRet s1 k) (delivRet s1 k == BRes.panic)
+  generalize (if s1.cfg.lmtp = true then _ else _) = s2 at hk2' ⊢
+  split
+  · exact ⟨(closeConn_good hk2'.1).1, by simp [hk2'.2, hk1.2]⟩
+  · exact ⟨(resetConn_good hk2'.1).1, by simp [hk2'.2, hk1.2]⟩
+
+theorem addBytesReceived_good {a0 : A} {s : S} (h : Good a0 s) (n : Nat) : Good a0 (addBytesReceived s n) :=
+  h.of_c rfl rfl rfl (shape_of h.shape rfl rfl rfl rfl rfl rfl)
+@[simp] theorem addBytesReceived_cfg (s : S) (n : Nat) : (addBytesReceived s n).cfg = s.cfg := rfl
+
+theorem bdatDone_keeps {a0 : A} {s : S} (h : Good a0 s) (k size : Nat) (last : Bool) :
+    Keeps a0 s (bdatDone s k size last).1 := by
+  unfold bdatDone
+  simp only []
+  have h1 := setLimit_good (addBytesReceived_good h size) s.cfg.maxLine
+  split
+  · exact ⟨reply_good h1 _ _ _, by simp⟩
+  · have hk := bdatFinal_keeps h1 k
+    exact ⟨hk.1, by rw [hk.2]; simp⟩
+
+theorem bdatAfterCopy_keeps {a0 : A} {s : S} (h : Good a0 s) (k size left : Nat) (last : Bool) (ce : CopyEnd) :
+    Keeps a0 s (bdatAfterCopy s k size left last ce).1 := by
+  unfold bdatAfterCopy
+  cases ce with
+  | done => exact bdatDone_keeps h _ _ _
+  | short => exact bdatFail_keeps h _ _
+  | srcErr e => exact bdatFail_keeps h _ _
+  | pipeErr =>
+    simp only []
+    split <;> exact bdatFail_keeps h _ _
+
+theorem bdatChunk_keeps {a0 : A} {s : S} (h : Good a0 s) (hcl : s.c.closed = false)
+    (hfrom : s.c.fromReceived = true) (hr : s.c.recipients.isEmpty = false) (size : Nat) (last : Bool) :
+    Keeps a0 s (bdatChunk s size last).1 := by
+  unfold bdatChunk
+  obtain ⟨hk0, hb0, hs0, hf0, hr0, hc0⟩ := setBdatStatus_keeps h
+  have hk1 := bdatBegin_keeps hk0.1 (by rw [hc0]; exact hcl) (by rw [hf0]; exact hfrom) (by rw [hr0]; exact hr)
+  rcases hbb : bdatBegin (setBdatStatus s) with ⟨s1, k⟩
+  rw [hbb] at hk1
+  simp only [] at hk1 ⊢
+  have h2 := setLimit_good hk1.1.1 0
+  have hcp := copyChunk_only (wireFuel (setLimit s1 0).w) (setLimit s1 0) k size (min 32768 (max size 1))
+  rcases hcc : copyChunk (wireFuel (setLimit s1 0).w) (setLimit s1 0) k size (min 32768 (max size 1)) with ⟨s3, left, ce⟩
+  rw [hcc] at hcp
+  simp only [] at hcp ⊢
+  have h3 : Good a0 s3 := hcp.good h2
+  have hk4 := bdatAfterCopy_keeps h3 k size left last ce
+  exact ⟨hk4.1, by rw [hk4.2, hcp.cfg]; simp [hk1.1.2, hk0.2]⟩
+
+theorem handleBdat_keeps {a0 : A} {s : S} (h : Good a0 s) (hcl : s.c.closed = false) (arg : Bytes) :
+    Keeps a0 s (handleBdat s arg).1 := by
+  unfold handleBdat
+  split
+  · exact keeps_reply h _ _ _
+  · simp only []
+    split
+    · exact ⟨(discardChunkN_keeps (reply_good h _ _ _) _).1, by simp⟩
+    split
+    · exact ⟨(discardChunkN_keeps (reply_good h _ _ _) _).1, by simp⟩
+    rename_i hfr
+    simp only [Bool.or_eq_true, Bool.not_eq_true', not_or, Bool.not_eq_false] at hfr
+    split
+    · exact ⟨(discardChunkN_keeps (reply_good h _ _ _) _).1, by simp⟩
+    split
+    · exact keeps_reply h _ _ _
+    · split
+      · exact ⟨(resetConn_good (discardChunkN_keeps (reply_good h _ _ _) _).1).1, by simp⟩
+      · exact bdatChunk_keeps h hcl (by simpa using hfr.1) (by simpa using hfr.2) _ _
+
+/-! ### dispatch, the command loop, the whole connection -/
+
+theorem panicLog_good {a0 : A} {s : S} (h : Good a0 s) : Good a0 (emit s .panicLog) := by
+  refine h.extend [.panicLog] rfl rfl ?_ (by simpa using h.shape)
+  simp [Order.run, Order.step, abs]
+
+/-- `defer recover()` in `Conn.handle`: 421, close, log -/
+theorem recover_keeps {a0 : A} {s : S} {p : S × Bool} (hk : Keeps a0 s p.1) : Keeps a0 s (recoverPanic p) := by
+  unfold recoverPanic
+  split
+  · exact ⟨panicLog_good (closeConn_good (reply_good hk.1 _ _ _)).1, by simp [hk.2]⟩
+  · exact hk
+
+theorem dispatchGreet_keeps {a0 : A} {s : S} (h : Good a0 s) (hcl : s.c.closed = false) (cmd arg : Bytes) :
+    Keeps a0 s (dispatchGreet s cmd arg) := by
+  unfold dispatchGreet
+  split
+  · exact keeps_reply h _ _ _
+  split
+  · exact keeps_reply h _ _ _
+  · exact recover_keeps (handleGreet_keeps h hcl _ _)
+
+theorem dispatch_keeps {a0 : A} {s : S} (h : Good a0 s) (hcl : s.c.closed = false) (cmd arg : Bytes) :
+    Keeps a0 s (dispatch s cmd arg) := by
+  unfold dispatch
+  cases verbOf cmd with
+  | unimpl => exact keeps_replyB h _ _ _
+  | greet => exact dispatchGreet_keeps h hcl _ _
+  | mail => exact recover_keeps (handleMail_keeps h _)
+  | rcpt => exact recover_keeps ⟨(handleRcpt_good h _).1, (handleRcpt_good h _).2⟩
+  | vrfy => exact keeps_reply h _ _ _
+  | noop => exact keeps_reply h _ _ _
+  | rset => exact ⟨reply_good (resetConn_good h).1 _ _ _, by simp⟩
+  | bdat => exact recover_keeps (handleBdat_keeps h hcl _)
+  | data => exact recover_keeps (handleData_keeps h _)
+  | quit => exact ⟨(closeConn_good (reply_good h _ _ _)).1, by simp⟩
+  | auth => exact recover_keeps (handleAuth_keeps h _)
+  | starttls => exact handleStartTLS_keeps h hcl
+  | unknown => exact ⟨(protocolErrorB_good h _ _ _).1, (protocolErrorB_good h _ _ _).2⟩
+
+theorem handle_keeps {a0 : A} {s : S} (h : Good a0 s) (hcl : s.c.closed = false) (cmd arg : Bytes) :
+    Keeps a0 s (handle s cmd arg) := by
+  unfold handle
+  split
+  · exact ⟨(protocolError_good h _ _ _).1, (protocolError_good h _ _ _).2⟩
+  · exact dispatch_keeps h hcl _ _
+
+theorem loop_keeps {a0 : A} (fuel : Nat) : ∀ {s : S}, Good a0 s → Keeps a0 s (loop fuel s) := by
+  induction fuel with
+  | zero => intro s h; exact Keeps.refl h
+  | succ fuel ih =>
+    intro s h
+    unfold loop
+    split
+    · exact Keeps.refl h
+    · rename_i hcl
+      have hcl : s.c.closed = false := by simpa using hcl
+      have hsame := connReadLine_same s
+      rcases hrl : connReadLine s with ⟨s1, r⟩
+      rw [hrl] at hsame
+      have hg1 : Good a0 s1 := hsame.good h
+      have hcl1 : s1.c.closed = false := by rw [hsame.c]; exact hcl
+      have hcfg1 : s1.cfg = s.cfg := hsame.cfg
+      cases r with
+      | ok line =>
+        simp only []
+        have hg2 : Good a0 (emit s1 (.cmd line)) := by
+          refine hg1.extend [.cmd line] rfl rfl ?_ (by simpa using hg1.shape)
+          simp [Order.run, Order.step, abs, hcl1]
+        split
+        · have hp := protocolError_good hg2 501 ⟨5, 5, 2⟩ "Bad command"
+          have hk := ih hp.1
+          exact ⟨hk.1, by rw [hk.2, hp.2]; simp [hcfg1]⟩
+        · rename_i cmd arg _
+          have hh := handle_keeps hg2 (by simpa using hcl1) cmd arg
+          have hk := ih hh.1
+          exact ⟨hk.1, by rw [hk.2, hh.2]; simp [hcfg1]⟩
+      | error e =>
+        cases e with
+        | eof => exact ⟨hg1, hcfg1⟩
+        | closed => exact ⟨hg1, hcfg1⟩
+        | tooLong => exact ⟨reply_good hg1 _ _ _, by simp [hcfg1]⟩
+        | timeout => exact ⟨reply_good hg1 _ _ _, by simp [hcfg1]⟩
+
+/-- **the whole connection.**  Greeting, command loop, deferred `Close`: the invariant holds at the end, the
+    connection is closed and nobody is left logged in. -/
+theorem serve_good {a0 : A} {s : S} (h : Good a0 s) :
+    Good a0 (serve s) ∧ (serve s).cfg = s.cfg ∧ (serve s).c.closed = true ∧ (serve s).c.session = none := by
+  unfold serve greet
+  have h1 := replyB_good h 220 noEnh [s.cfg.domain ++ (if s.cfg.lmtp then " LMTP Service Ready".b else " ESMTP Service Ready".b)]
+  have hk := loop_keeps (a0 := a0) (totalFuel s) h1
+  have hc := closeConn_good hk.1
+  refine ⟨hc.1, by rw [hc.2.2, hk.2]; simp, by rw [hc.2.1], by rw [hc.2.1]⟩
+
 end SmtpV.Server
